@@ -41,15 +41,17 @@ class Trace:
         self.call_start = 0  # value of count when the current solver call started
         self.per_call = []  # evaluations used by each finished solver call
         self.total_exceeded = False
-        self._installed = False
+        self.hooked = False
+        self._installed = []
 
     def __enter__(self):
         pv = self.pv
-        self._orig_method = pv.get_partial_fluxes_from_permeate_composition
-        self._orig_pp = _pvmod.get_partial_pressures
+        # internals may be renamed by a refactoring: every hook is optional, the module-level counter is the fallback
+        self._orig_method = getattr(pv, "get_partial_fluxes_from_permeate_composition", None)
+        self._orig_pp = getattr(_pvmod, "get_partial_pressures", None)
         trace = self
 
-        self._orig_solver = pv.calculate_partial_fluxes
+        self._orig_solver = getattr(pv, "calculate_partial_fluxes", None)
 
         def solver(*args, **kwargs):
             trace.calls += 1
@@ -80,27 +82,35 @@ class Trace:
 
         def counted_pp(*args, **kwargs):
             trace.pp_calls += 1
+            if not trace.hooked:  # method hook unavailable (renamed internals): partial-pressure calls stand in for evaluations
+                trace.count += 1
             if trace.pp_calls - trace.pp_start > 4 * trace.cap + 16:
                 raise EvaluationCap(trace.pp_calls - trace.pp_start)
             return trace._orig_pp(*args, **kwargs)
 
-        try:
-            object.__setattr__(pv, "get_partial_fluxes_from_permeate_composition", wrapped)
-            object.__setattr__(pv, "calculate_partial_fluxes", solver)
-            self._installed = True
-        except Exception:
-            self._installed = False
-        _pvmod.get_partial_pressures = counted_pp
+        self._installed = []
+        for name, orig, repl in (("get_partial_fluxes_from_permeate_composition", self._orig_method, wrapped),
+                                 ("calculate_partial_fluxes", self._orig_solver, solver)):
+            if orig is None:
+                continue
+            try:
+                object.__setattr__(pv, name, repl)
+                self._installed.append(name)
+            except Exception:
+                pass
+        self.hooked = "get_partial_fluxes_from_permeate_composition" in self._installed
+        if self._orig_pp is not None:
+            _pvmod.get_partial_pressures = counted_pp
         return self
 
     def __exit__(self, *exc):
-        if self._installed:
+        for name in self._installed or []:
             try:
-                object.__delattr__(self.pv, "get_partial_fluxes_from_permeate_composition")
-                object.__delattr__(self.pv, "calculate_partial_fluxes")
+                object.__delattr__(self.pv, name)
             except Exception:
                 pass
-        _pvmod.get_partial_pressures = self._orig_pp
+        if self._orig_pp is not None:
+            _pvmod.get_partial_pressures = self._orig_pp
         return False
 
     # ---- derived quantities
